@@ -47,7 +47,7 @@ def cases(tier, seed):
             src = gen.random_mesh(rng, 30, families=["voronoi", "merged"])
             src["ops"] = [o for o in src.get("ops", []) if o[0] != "partial"] + [["partial", [int(rng.integers(0, 10**6)), 0.5, "one"]]]
         else:
-            src = gen.random_mesh(rng, 40 if tier == "quick" else 120)
+            src = gen.random_mesh(rng, 40 if tier == "quick" else 120, families=gen.ALL_FAMILIES)
         same = bool(rng.random() < 0.2)
         dst = src if same else gen.random_mesh(rng, 40 if tier == "quick" else 150)
         yield {"src": src, "dst": dst, "same": same, "source_kind": "mpas" if (r == 2 and not same) else "topology",
